@@ -244,7 +244,7 @@ ares_status_t ares_parse_sortlist(struct apattern **sortlist, size_t *nsort,
      The old parser behaved this way and this behavior of splitting in
      semicolons was preserved in the parser rewrite on
      e72ae094855a0aed44afadfb4de462065e144185 (see also #653).*/
-  status = ares_buf_split(buf, (const unsigned char *)" ;", 2,
+  status = ares_buf_split(buf, (const unsigned char *)" ;\t", 3,
                           ARES_BUF_SPLIT_NONE, 0, &arr);
   if (status != ARES_SUCCESS) {
     goto done;
@@ -306,7 +306,7 @@ static ares_status_t config_search(ares_sysconfig_t *sysconfig, const char *str,
   }
 
   status = ares_buf_split_str(
-    buf, (const unsigned char *)", ", 2,
+    buf, (const unsigned char *)", \t", 3,
     ARES_BUF_SPLIT_NO_DUPLICATES | ARES_BUF_SPLIT_CASE_INSENSITIVE, 0, &domains,
     &ndomains);
   ares_buf_destroy(buf);
@@ -343,12 +343,29 @@ static ares_status_t config_search(ares_sysconfig_t *sysconfig, const char *str,
 static ares_status_t buf_fetch_string(ares_buf_t *buf, char *str,
                                       size_t str_len)
 {
-  ares_status_t status;
+  const unsigned char *ptr;
+  size_t               len = 0;
+  size_t               i;
+
   ares_buf_tag(buf);
   ares_buf_consume(buf, ares_buf_len(buf));
 
-  status = ares_buf_tag_fetch_string(buf, str, str_len);
-  return status;
+  ptr = ares_buf_tag_fetch(buf, &len);
+  if (ptr == NULL || len == 0 || len >= str_len) {
+    return ARES_EBADSTR;
+  }
+
+  /* resolv.conf allows both spaces and tabs between the words of a value, the
+   * printable check below would reject the whole line for a tab */
+  for (i = 0; i < len; i++) {
+    str[i] = (ptr[i] == '\t') ? ' ' : (char)ptr[i];
+  }
+  str[len] = 0;
+
+  if (!ares_str_isprint(str, len)) {
+    return ARES_EBADSTR;
+  }
+  return ARES_SUCCESS;
 }
 
 static ares_status_t config_lookup(ares_sysconfig_t *sysconfig, ares_buf_t *buf,
